@@ -107,6 +107,23 @@ func replayObs(ops []obs, m *KV) (*obs, string) {
 
 func runC08(rc *RunCtx) {
 	s, tp := rc.S, rc.S.Tape
+	// one run in 24 uses the real single-node Raft backend (about 2000x the
+	// cost of an in-memory run, so this is roughly half of the time budget)
+	if tp.Pick(24) == 23 {
+		rc.Cfg("stack", "raft")
+		inBubble(rc, func() {
+			h, err := BootRaft(s)
+			if err != nil {
+				panic(err)
+			}
+			defer h.Close()
+			rr := RunRaftWorkload(rc, h, "C08")
+			CheckRaftSerial(rc, h, rr, "C08")
+			rc.Res.Sample = map[string]any{"stack": "raft", "history": tail(rr.Hist, 30)}
+			rc.Res.StateSig = fmt.Sprintf("raft/p%d/lag%d", len(rr.Proposals), rr.MaxLag)
+		})
+		return
+	}
 	o := StackOpts{Bottom: []string{"inmem", "simdisk"}[tp.Pick(2)]}
 	o.Encoding = tp.Pick(2) == 1
 	if tp.Pick(2) == 1 {
